@@ -259,6 +259,12 @@ struct C15 : Scenario {
 		o.uniform_level = rng.chance(1, 2);
 		o.abs_mix = rng.chance(1, 8);   // "/a/x" beside "a/": two spellings, two different paths as far as the reader is concerned
 		gen_tree(rng, o, p.members);
+		// directories that record nothing at all - no permissions, no owner, time stamp zero: they are re-presented all the same
+		for (auto &m : p.members)
+			if (m.kind == 'd' && m.gperms < 0 && rng.chance(1, 2)) {
+				m.time = 0;
+				m.ext.erase(std::remove_if(m.ext.begin(), m.ext.end(), [](const ExtHdr &e) { return e.type == 0x54 || e.type == 0x41 || e.type == 0x51; }), m.ext.end());
+			}
 		size_t nt = rng.chance(3, 5) ? 1 : (rng.chance(3, 4) ? 2 : 3);
 		for (size_t k = 0; k < nt; ++k) {
 			Task t;
@@ -325,7 +331,8 @@ struct C15 : Scenario {
 		auto drive_k = [&](size_t k) {
 			Task tk = p.tasks[k];
 			DriveOpts ok = o;
-			if (tk.kind == "BY_NAME") { tk.kind = "FILE_SEEK"; ok.by_name = true; ok.by_name_path = "/w/arc" + std::to_string(k) + ".lzh"; }
+			// by name: a regular file, or (odd reader index) a FIFO - the library's own FILE then cannot seek
+			if (tk.kind == "BY_NAME") { tk.kind = (k & 1) ? "FILE_PIPE" : "FILE_SEEK"; ok.by_name = true; ok.by_name_path = "/w/arc" + std::to_string(k) + ".lzh"; }
 			return drive_reader(tk, a.bytes, ok);
 		};
 		if (p.tasks.size() == 1) {
@@ -467,6 +474,16 @@ struct C20 : Scenario {
 		// refusals by the filesystem during extraction: the failure paths release everything as well
 		gen_fs_refusals(rng, p, "/w/t0");
 		if (t.kind == "BY_NAME" && rng.chance(1, 4)) p.sets("byname", rng.chance(1, 2) ? "dir" : "missing");
+		if (rng.chance(1, 8))
+			for (auto &m : p.members)
+				if (m.kind == 'l') {
+					// the name of a symbolic-link entry cut off before its '|': the entry is refused (the archive ends there), and
+					// what was put together while looking at it has to be released like everything else
+					auto cut = [](Bytes &b) { for (size_t i = 0; i < b.size(); ++i) if (b[i] == '|') { b.resize(i); return true; } return false; };
+					bool done = cut(m.inname);
+					for (auto &e : m.ext) if (!done && e.type == 0x01) done = cut(e.data);
+					if (done) { p.sets("broken_link", "1"); break; }
+				}
 		return p;
 	}
 	// one evaluation on a fresh filesystem
